@@ -8,15 +8,15 @@ from checks_table import CHECKS  # noqa
 
 TEXT = {
  "C01": ("Deterministic discrete-event simulation of 3 and 5 real RaftNode objects (capture transport, real WAL files) under seeded delivery/duplication/loss/reordering, election timeouts, proposals, partitions and crash/restart; an online monitor holds the committed (index -> term,payload) map, leader-per-term map and log-matching relation and checks every step.",
-         "Held on the schedules explored; fixed membership, no snapshot install; crashes are process crashes at record boundaries.",
+         "Held on the schedules explored; fixed membership; crashes are process crashes at record boundaries.",
          "runtime monitoring: online trace checker over a seeded fault-injecting cluster simulation of the real node"),
- "C02": ("Real TensorStore histories (all value kinds/key classes/sync modes) with crash images taken from what was really on disk: after every call, at sampled or all byte cuts inside each call's log growth, inside checkpoint() and WAL rotation via hook callbacks, partial snapshot temp files; every image is recovered with the real recover() and compared with the recorded live states S_lo..S_hi; recovered stores are written to and crashed again (3 crashes). A strace leg checks on the syscall log that every acknowledgement is preceded by fsync of the log.",
+ "C02": ("Real TensorStore histories (all value kinds/key classes/sync modes) with crash images taken from what was really on disk: after every call, at sampled or all byte cuts inside each call's log growth, inside checkpoint() and WAL rotation via hook callbacks, partial snapshot temp files; every image is recovered with the real recover() and compared with the recorded live states S_lo..S_hi; recovered stores are written to and crashed again (3 crashes). Large (multi-write) records are part of the workload. A strace leg checks on the syscall log that every acknowledgement is preceded by fsync of the log; a second one kills a real checkpoint() at every write/rename/fsync and recovers.",
          "Process-crash model (file = prefix of bytes written); power-loss reordering is out of reach, fsync ordering is checked instead. Byte cuts are sampled for large records.",
          "runtime monitoring: crash-image fault injection with record-and-compare oracle + syscall-order monitor (strace)"),
- "C03": ("Message-level simulation of one real DistributedTxCoordinator and 2-3 real TxParticipants with loss, duplication, reordering, timeouts, late/duplicate votes and concurrent transactions; clause-wise oracle over decisions, applied writes and pre-images.",
+ "C03": ("Message-level simulation of one real DistributedTxCoordinator and 2-3 real TxParticipants with loss, duplication, reordering, timeouts, late/duplicate votes, concurrent transactions, messages of one transaction handled on several threads at once, and a coordinator log that refuses appends followed by a coordinator restart; clause-wise oracle over decisions (also across the restart), applied writes and pre-images.",
          "Held on the schedules explored; participant lock expiry left at its default (never fires).",
          "runtime monitoring: online oracle over a seeded message-fault simulation of the real coordinator/participants"),
- "C04": ("Model-based differential testing of the real RelationalEngine: Condition::evaluate on the harness's own row model defines 'satisfies'; every query path (scan, hash index, ordered index, columnar, limit/offset, cursor, aggregates, update, delete, text via the router) is compared on random schemas, data with edge-case values and condition trees.",
+ "C04": ("Model-based differential testing of the real RelationalEngine: Condition::evaluate on the harness's own row model defines 'satisfies'; every query path (scan, hash index, ordered index, columnar, limit/offset, cursor, aggregates, update, delete, text via the router with the query cache off and on, minimal-parentheses WHERE text) is compared on random schemas, data with edge-case values and condition trees.",
          "Held on the programs explored; <=200 rows, <=4 columns, depth <=5.",
          "runtime monitoring: reference-model oracle + cross-path differential on randomized programs"),
  "C05": ("Real GraphEngine under sequential model-based programs and 2-8 thread stress on hub nodes (seeded jitter and deterministic parking at the adjacency read-modify-write hook); structural invariant walker and no-lost-edge conservation at quiescence; TSan leg on the concurrent part.",
@@ -25,40 +25,40 @@ TEXT = {
  "C06": ("Real VectorEngine/HNSW against an f64 reference scorer: exhaustive-search exactness, cached-index soundness after every mutation API, read-back exactness, on random stores (dense/sparse/zero/duplicate/mixed dimensions) and operation programs.",
          "Held on the programs explored; <=300 vectors, dim <=64 (+ some 384/768); epsilon for f32-vs-f64.",
          "runtime monitoring: reference-scorer oracle over randomized operation programs"),
- "C07": ("Stores filled through the real engines and raw puts are saved/loaded through 8 paths and re-observed through store and engine read APIs (deep equality, documented tolerance for tensor-train vectors); atomic replacement is checked by killing a real save at every write/open/rename syscall under strace and loading the destination, by a protocol check on the syscall log, and by enumerating temp-file prefixes.",
+ "C07": ("Stores filled through the real engines and raw puts (including cache-ring keys and incompressible payloads) are saved/loaded through 9 paths and re-observed through store and engine read APIs (deep equality, documented tolerance for tensor-train vectors); atomic replacement is checked by killing a real save at every write/open/rename syscall under strace and loading the destination, by a protocol check on the syscall log, by enumerating temp-file prefixes and stale temp files, and by re-snapshotting after further writes.",
          "Process-kill model; dense random >=256-dim vectors are not judged (no documented bound when the rank cap binds).",
          "runtime monitoring: record-and-compare oracle + strace kill injection and syscall-log protocol monitor"),
- "C08": ("Random statement programs through the real QueryRouter with CHECKPOINT / ROLLBACK TO; the observation vector (table, graph, embedding queries) recorded at checkpoint time must be reproduced after rollback; further writes must work; retention keeps the newest N.",
+ "C08": ("Random statement programs through the real QueryRouter (sync, async and parsed-statement entry points, query cache on/off, plain and Bloom-filter stores) with CHECKPOINT / ROLLBACK TO; the observation vector (table, graph, embedding queries) recorded at checkpoint time must be reproduced after rollback; further writes must work; retention keeps the newest N.",
          "Held on the programs explored; retention judged only at the 1 s granularity of the code's stamps.",
          "runtime monitoring: record-and-compare oracle at the query interface"),
- "C09": ("Real RelationalEngine transactions: sequential and interleaved multi-transaction programs over tables with hash and ordered indexes; pre-transaction recordings must be reproduced after rollback through every access path, commits must persist, conflicting writers must get LockConflict, no locks may remain.",
-         "Held on the programs/interleavings explored; lock timeouts not exercised beyond whole seconds.",
+ "C09": ("Real RelationalEngine transactions: sequential and interleaved multi-transaction programs over tables with hash and ordered indexes; pre-transaction recordings must be reproduced after rollback through every access path, commits must persist, conflicting writers must get LockConflict, no locks may remain; statements failing half-way under tight index capacity; lock expiry and take-over scenarios.",
+         "Held on the programs/interleavings explored; lock timeouts exercised at 1 s granularity with don't-care windows.",
          "runtime monitoring: model + record-and-compare oracle, lock-table monitor"),
- "C10": ("A real RaftNode with a real WAL is driven through elections, votes, appends, truncations; every reply/ack adds obligations (term, vote, entries) stamped with the WAL length; every byte-prefix crash image (chains of 3 crashes) is restarted with with_wal and must honour all obligations stamped before the cut.",
+ "C10": ("A real RaftNode with a real WAL is driven through elections, votes, appends, truncations, leader careers, log compaction and snapshot installs; every reply/ack adds obligations (term, vote, entries) stamped with the WAL length; every byte-prefix crash image (chains of 3 crashes) is restarted with with_wal and must honour all obligations stamped before the cut.",
          "Process-crash model; see C02.",
          "runtime monitoring: promise-ledger oracle over byte-granular crash images of the real WAL"),
- "C11": ("2-8 OS threads on 1-4 contended keys of every key class on one real TensorStore (durable and not); client-boundary history with atomic ticks; self-describing values detect torn/mixed reads; per-key Wing-Gong linearizability check; recovered-state == live-state after quiescence; deterministic two-writer schedule at the put_durable hook; the same workload under ThreadSanitizer.",
-         "Held on the interleavings observed; delete's Ok/NotFound result is not judged; scans are judged per key.",
+ "C11": ("2-8 OS threads on 1-4 contended keys of every key class on one real TensorStore (durable and not); client-boundary history with atomic ticks; self-describing values detect torn/mixed reads; per-key Wing-Gong linearizability check; scan atomicity over >2000 keys against real-time ordered write pairs; recovered-state == live-state after quiescence with checkpoints concurrent to the writers; deterministic two-writer schedule at the put_durable hook; the same workload under ThreadSanitizer.",
+         "Held on the interleavings observed; delete's Ok/NotFound result is not judged; scan atomicity is judged for keys of one class.",
          "runtime monitoring: linearizability checking of recorded histories + ThreadSanitizer + forced interleavings at hooks"),
  "C12": ("Real LockManager under 2-6 threads with a sound shadow-owner table, model-based sequential programs with expiry and serialize/restore, and the real WaitForGraph/DeadlockDetector against a reference SCC on all digraphs over <=4 transactions and random ones up to 8.",
          "Held on what was explored; expiry windows are don't-care.",
          "runtime monitoring: shadow-state monitor + reference oracle (exhaustive for <=4 transactions)"),
- "C13": ("Real coordinator with a real TxWal: byte-granular crash images (chains of 3) are recovered and probed (commit/abort/timeouts/pending decisions/new transactions) against a classification the harness decodes itself from the durable prefix.",
+ "C13": ("Real coordinator with a real TxWal: byte-granular crash images (chains of 3) are recovered and probed (commit/abort/timeouts/pending decisions/new transactions) against a classification the harness decodes itself from the durable prefix (including lock handles of completed transactions and completions logged after the restart).",
          "Process-crash model; see C02.",
          "runtime monitoring: crash-image fault injection with independent log-decoding oracle"),
- "C14": ("Random programs of vault operations by root and 3-5 identities compared decision-by-decision with an independent access model (only-if direction), plus byte-substring scans for unique secret names/values in the store image, snapshots, audit records and error messages.",
+ "C14": ("Random programs of vault operations by root and 3-5 identities (grants, TTLs, delegation DAGs with plain and cascading revocation, rotation, restarts) compared decision-by-decision with an independent access model (only-if direction), plus byte-substring scans for unique secret names/values in the store image, snapshots, audit records and error messages.",
          "Held on the programs explored; TTL decisions ignored within a margin of the expiry instant.",
          "runtime monitoring: reference access-model oracle + at-rest marker scan"),
  "C15": ("Totality/determinism/span checks of the real lexer/parsers on random, token-soup, mutated and deeply nested inputs (child processes catch stack overflow/abort), precedence round-trips of generated expression trees through both expression parsers against the documented table, and text-vs-direct-call equivalence through the router.",
          "Held on the inputs explored; <=4 KiB strings, depth <=8 trees.",
          "runtime monitoring: grammar-based generation with round-trip and differential oracles, crash containment in child processes"),
- "C16": ("Real TensorChain: sequential workspace programs, tamper matrix over every stored block and field, concurrent commits (stress and parked at the commit hook), replica replay on two stores; verify() must accept built chains and reject tampered ones, commits must be atomic.",
+ "C16": ("Real TensorChain: sequential workspace programs, tamper matrix over every stored block and field, concurrent commits (stress and parked at the commit hook), replica replay on two stores, re-opening the chain on crash images with the persisted height behind/ahead of the stored blocks; verify() must accept built chains and reject tampered ones, commits must be atomic.",
          "Held on the programs/interleavings explored.",
          "runtime monitoring: tamper-injection oracle + atomicity/conservation checks under forced interleavings"),
  "C17": ("Real LWWMembershipState / GossipMembershipManager on every multiset of <=4 (quick) / <=5 (thorough) updates over a small universe in every permutation and batching, plus random larger multisets and random programs of merges and local events, with an online monitor for view equality and monotonicity.",
          "Universe bounded (2 members, incarnation 0-2, timestamp 1-2 for the exhaustive part).",
          "runtime monitoring: online oracle over enumerated delivery orders and randomized programs"),
- "C18": ("Real GraphEngine path queries and algorithms against independent reference implementations (BFS, Bellman-Ford, DFS enumeration, Tarjan, Kruskal, peeling, triangle enumeration) on random multigraphs with self-loops, parallel edges, mixed direction, filters.",
+ "C18": ("Real GraphEngine path queries and algorithms against independent reference implementations (BFS, Bellman-Ford, DFS enumeration, Tarjan, Kruskal, peeling, triangle enumeration, exhaustive enumeration of variable-length pattern matches) on random multigraphs with self-loops, parallel edges, mixed direction, filters.",
          "Held on the graphs explored (<=40 nodes).",
          "runtime monitoring: reference-algorithm oracle on randomized inputs"),
  "C19": ("Real BlobStore against a byte-exact model with chunk reference-count conservation at quiescence, sizes around chunk boundaries, damage injection for verify, and concurrent writers/deleters/collectors.",
